@@ -1,6 +1,8 @@
 package vrf
 
 import (
+	"time"
+	"sync"
 	"bytes"
 	"crypto/sha512"
 	"encoding/hex"
@@ -290,6 +292,48 @@ func runF(op string, in M) (M, M) {
 			f["beta"] = b
 		}
 		return out, f
+	case "vrf.par":
+		// concurrent Prove / Verify calls on distinct inputs: each answers as it does alone
+		rr := rand.New(rand.NewSource(int64(vIntOf(in["seed"]))))
+		const K = 8
+		type job struct {
+			seed, alpha, pi, beta, pub []byte
+		}
+		jobs := make([]job, K)
+		for k := range jobs {
+			s, a := make([]byte, 32), make([]byte, 1+rr.Intn(40))
+			rr.Read(s)
+			rr.Read(a)
+			ref := refProve(s, a)
+			jobs[k] = job{s, a, ref.proof, ref.beta, ref.pub}
+		}
+		msg := ""
+		p := vCatch(func() {
+			var wg sync.WaitGroup
+			var mu sync.Mutex
+			deadline := time.Now().Add(time.Duration(vEnvInt("VERIF_PAR_MS", 1200)) * time.Millisecond)
+			for g := 0; g < K; g++ {
+				wg.Add(1)
+				go func(j job) {
+					defer wg.Done()
+					for rep := 0; rep < 4 || time.Now().Before(deadline); rep++ {
+						pi := Prove(NewKeyFromSeed(j.seed), j.alpha).Bytes()
+						ok, beta := Verify(j.pub, j.alpha, j.pi)
+						if !bytes.Equal(pi, j.pi) || !ok || !bytes.Equal(beta, j.beta) {
+							mu.Lock()
+							msg = "verif: a call made concurrently with other calls gave a different answer than alone"
+							mu.Unlock()
+							return
+						}
+					}
+				}(jobs[g])
+			}
+			wg.Wait()
+		})
+		if p == "" {
+			p = msg
+		}
+		return M{"panic": p}, M{}
 	case "vrf.Decode":
 		out := decodeOut(vBytes(in["pi"]))
 		out["panic"] = out["decode_panic"]
@@ -322,6 +366,9 @@ func TestVerifDriver(t *testing.T) {
 	}
 	r := vRand(18)
 	n := vEnvInt("VERIF_N", 12)
+	if vEnvInt("VERIF_PAR_MS", 1200) > 0 {
+		defer emit("vrf.par", M{"seed": r.Intn(1 << 30)})
+	}
 	verify := func(pk, alpha, pi []byte, expect, decodes string, beta []byte) {
 		emit("vrf.Verify", M{"pk": vInts(pk), "alpha": vInts(alpha), "pi": vInts(pi), "expect": expect, "decodes": decodes, "beta": vInts(beta)})
 	}
@@ -341,6 +388,14 @@ func TestVerifDriver(t *testing.T) {
 			}
 		}
 		emit("vrf.Prove", M{"seed": vInts(seed), "alpha": vInts(alpha)})
+		if len(alpha) > 0 { // the same key on another alpha of the same length (the caller's buffer is reused), and the first one again
+			a2 := append([]byte{}, alpha...)
+			for i := range a2 {
+				a2[i] = byte(int(a2[i])*5 + i + 1)
+			}
+			emit("vrf.Prove", M{"seed": vInts(seed), "alpha": vInts(a2)})
+			emit("vrf.Prove", M{"seed": vInts(seed), "alpha": vInts(alpha)})
+		}
 		ref := refProve(seed, alpha)
 		pi := ref.proof
 		verify(ref.pub, alpha, pi, "accept", "yes", ref.beta)
